@@ -7,7 +7,7 @@
     themselves (holder, duplicate-free reasons, between-calls reader). *)
 From Coq Require Import Lia ZArith.
 From Hoot Require Import Base Chunk Body Httparse Parser Url Request Call Flow.
-From Hoot.proofs Require Import BytesLemmas C09_inv C12_chunk C12_parsers C12_flow C12_session.
+From Hoot.proofs Require Import BytesLemmas C09_inv C12_chunk C12_parsers C12_flow C12_after_err C12_session.
 Open Scope N_scope.
 
 (** The two formulations of "between-calls reader" agree. *)
@@ -109,9 +109,14 @@ Proof.
   apply (body_run_safe_all ops f r); assumption.
 Qed.
 
+(** After an error the flow is the real post-error flow ([recv_body_after_err]: the decoder keeps the
+    state it reached). *)
 Theorem inv_then_proceed_body f w cap :
   Inv TRecvBody f ->
-  let f1 := match recv_body_read f w cap with Ok (f', _, _) => f' | _ => f end in
+  let f1 := match recv_body_read f w cap with
+            | Ok (f', _, _) => f'
+            | _ => recv_body_after_err f w cap
+            end in
   match recv_body_proceed f1 with
   | Panic _ => False
   | Err _ => False
@@ -120,7 +125,14 @@ Theorem inv_then_proceed_body f w cap :
   end.
 Proof.
   intros H. destruct (inv_recv_body_pre f H) as (Hh & _ & r & Hr & Hok).
-  apply (then_proceed_body f r); assumption.
+  apply (then_proceed_body_real f r); assumption.
+Qed.
+
+(** Schedules that carry on through failed reads, from the state each failed read really leaves. *)
+Theorem inv_body_schedule_through_errors f ops : Inv TRecvBody f -> body_run_through_errors f ops.
+Proof.
+  intros H. destruct (inv_recv_body_pre f H) as (Hh & _ & r & Hr & Hok).
+  apply (body_run_through_errors_all ops f r); assumption.
 Qed.
 
 (* ------------------------------------------------------------------ Redirect *)
@@ -193,6 +205,7 @@ Print Assumptions inv_recv_try_response.
 Print Assumptions inv_recv_body_read.
 Print Assumptions inv_body_schedule.
 Print Assumptions inv_then_proceed_body.
+Print Assumptions inv_body_schedule_through_errors.
 Print Assumptions inv_redirect.
 Print Assumptions inv_session.
 Print Assumptions inv_demo_nonvacuous.
